@@ -15,6 +15,7 @@ class Abstraction:
         self.cache = {}
         self.prod = {}
         self.factors_of = {}
+        self.keepalive = []
         self.budget = 60000
         self.axioms = []
         self.n = 0
@@ -29,6 +30,8 @@ class Abstraction:
             raise OverflowError("abstraction budget exceeded")
         r = self._term(e)
         self.cache[i] = r
+        self.keepalive.append(e)      # AST ids are only unique while the AST is alive: pin every cached term
+        self.keepalive.append(r)
         return r
 
     def _term(self, e):
@@ -112,6 +115,8 @@ class Abstraction:
         self.n += 1
         y = z3.Real(f"absm!{self.n}")
         self.prod[key] = y
+        self.keepalive.extend(fs)
+        self.keepalive.append(y)
         self.factors_of[y.get_id()] = list(fs)
         self._keep = getattr(self, "_keep", []) + fs
         distinct = {}
